@@ -26,3 +26,62 @@ func BigOps(g *G, nprog int) []Program {
 	}
 	return out
 }
+
+// BigQuo generates quotients by divisors of at least 100 words (recursive division) whose digit patterns make
+// block quotient estimates too large (low half all nines, high half 5000...), at precisions that need
+// several quotient blocks, into receivers with dirty buffers.
+func BigQuo(g *G, n int) []Program {
+	var out []Program
+	for i := 0; i < n; i++ {
+		words := 100 + g.R.Intn(40)
+		if g.Thor && g.R.Intn(3) == 0 {
+			words = 200 + g.R.Intn(100)
+		}
+		nd := words * 19
+		var y string
+		switch g.R.Intn(4) {
+		case 0:
+			y = "5" + rep("0", nd/2-1) + rep("9", nd-nd/2)
+		case 1:
+			y = rep("9", nd/2) + rep("0", nd-nd/2-1) + "1"
+		case 2:
+			y = g.PickS("5", "9", "1") + g.Digits(nd-1)
+		default:
+			y = g.Digits(nd)
+		}
+		x := "1"
+		if g.Bool() {
+			x = g.Digits(nd + g.R.Intn(nd))
+		}
+		fixedP := 0
+		if i < 4 {
+			// always present: 1 / 0.5000...0999...9 with the high part 1/2 or 1/4 of the divisor, quotient as long as
+			// the divisor: the quotient estimate of a non-final block of the recursive division has to be corrected
+			words = []int{128, 128, 110, 100}[i]
+			nd = words * 19
+			h := []int{64, 32, 55, 30}[i] * 19
+			y = "5" + rep("0", h-1) + rep("9", nd-h)
+			x = "1"
+			fixedP = nd
+		}
+		g.Load("r0", g.Bool(), x, g.Exp(), 0, g.Mode())
+		g.Load("r1", g.Bool(), y, g.Exp(), 0, g.Mode())
+		// receiver with a dirty buffer of full length, then the precision under test
+		p := g.Pick(nd/2+60, nd, nd+nd/2, 2*nd)
+		if fixedP != 0 {
+			p = fixedP
+		}
+		g.Load("r2", g.Bool(), g.Digits(2*nd), g.Exp(), 0, g.Mode())
+		g.Emit(M{"op": "SetMode", "z": "r2", "m": g.Mode()})
+		g.Emit(M{"op": "SetPrec", "z": "r2", "p": p})
+		z := g.PickS("r2", "r2", "r2", "r0", "r1")
+		g.Emit(M{"op": "Quo", "z": z, "x": "r0", "y": "r1"})
+		if g.Pending() >= 20 {
+			out = append(out, g.Flush("bigquo"))
+		}
+	}
+	if g.Pending() > 0 {
+		out = append(out, g.Flush("bigquo"))
+	}
+	return out
+}
